@@ -989,6 +989,15 @@ func (i *interpreter) globalAddr(g *ssa.Global) *value {
 		}
 	}
 	p := i.globals[g]
+	if pkg.Pkg.Path() == "crypto/rand" {
+		// the package initialiser is not executed (crypto/*): give Reader its documented value, a *reader
+		if rt, ok := pkg.Members["reader"].(*ssa.Type); ok {
+			if rg, ok := pkg.Members["Reader"].(*ssa.Global); ok {
+				cell := zero(rt.Type())
+				*i.globals[rg] = iface{t: types.NewPointer(rt.Type()), v: &cell}
+			}
+		}
+	}
 	if g.Name() == "init$guard" {
 		return p
 	}
